@@ -78,6 +78,8 @@ _NOVAL = _NoVal()
 def value_of(e, env):
     if isinstance(e, ast.Constant):
         return e.value
+    if isinstance(e, ast.UnaryOp) and isinstance(e.op, ast.USub) and isinstance(e.operand, ast.Constant) and isinstance(e.operand.value, (int, float)):
+        return -e.operand.value
     if isinstance(e, ast.Name):
         return env.get(e.id, _NOVAL)
     if isinstance(e, (ast.List, ast.Tuple, ast.Set)):
@@ -104,6 +106,14 @@ def _cmp(a, op, b):
             return a is b
         if isinstance(op, ast.IsNot):
             return a is not b
+        if isinstance(op, ast.Lt):
+            return a < b
+        if isinstance(op, ast.LtE):
+            return a <= b
+        if isinstance(op, ast.Gt):
+            return a > b
+        if isinstance(op, ast.GtE):
+            return a >= b
     except TypeError:
         return UNKNOWN
     return UNKNOWN
